@@ -554,9 +554,14 @@ func (c *Ctx) onlyCaller(fn *ssa.Function) ssa.CallInstruction {
 	}
 	if n := c.P.CHA().Nodes[fn]; n != nil {
 		for _, e := range n.In {
-			if e.Site != sites[0] {
-				return nil
+			if e.Site == sites[0] {
+				continue
 			}
+			// a promotion wrapper ((*Session).m forwarding to the embedded (*Server).m) that nothing calls is not a caller
+			if cf := e.Caller.Func; cf != nil && cf.Synthetic != "" && len(e.Caller.In) == 0 {
+				continue
+			}
+			return nil
 		}
 	}
 	return sites[0]
